@@ -215,7 +215,7 @@ def _shard(events: List[Dict[str, Any]], k: int) -> List[List[Dict[str, Any]]]:
     """Splits into <= k shards of similar weight without splitting a trace
     (consecutive events with the same tid)."""
     n = len(events)
-    if k <= 1 or n < 3000:
+    if k <= 1:
         return [events]
     traces: List[Tuple[float, int, int]] = []
     start = 0
@@ -226,7 +226,7 @@ def _shard(events: List[Dict[str, Any]], k: int) -> List[List[Dict[str, Any]]]:
             start, w = j, 0.0
         w += _weight(e)
     traces.append((w, start, n))
-    k = min(k, max(1, n // 3000))
+    k = min(k, max(1, n // 500))
     bins: List[List[Tuple[int, int]]] = [[] for _ in range(k)]
     load = [0.0] * k
     for w, a, b in sorted(traces, reverse=True):
@@ -254,7 +254,13 @@ def validate_traces(chk: Check, module: str, events: List[Dict[str, Any]],
     if not events:
         return []
     cfg = tlc.cfg_text(specification=spec, constants=constants)
-    parts = _shard(events, shards)
+    # TLC holds a whole shard in memory (ndJsonDeserialize): bound the shard by
+    # its size in bytes, run the shards in waves of `shards` JVMs
+    approx = sum(len(json.dumps(e, separators=(',', ':'))) for e in events[::max(1, len(events) // 400)])
+    per_event = approx / max(1, len(events[::max(1, len(events) // 400)]))
+    nshards = max(shards if len(events) >= 3000 else 1,
+                  int(len(events) * per_event / 12e6) + 1)
+    parts = _shard(events, nshards)
 
     def one(evs):
         d = tlc.fresh(f'{module}-trace')
